@@ -361,6 +361,8 @@ impl Executor {
                 OpCode::VAppend => self.do_binop(|v1, v2| {
                     let mut v1 = v1.into_vector()?;
                     let v2 = v2.into_vector()?;
+                    // lengths are usize: a vector too long to count fails instead of overflowing inside the container
+                    v1.len().checked_add(v2.len())?;
 
                     v1.append(v2);
 
@@ -398,12 +400,14 @@ impl Executor {
                 },
                 OpCode::VPush => self.do_binop(|vec, item| {
                     let mut vec: CatVec<Value, 32> = vec.into_vector()?;
+                    vec.len().checked_add(1)?;
                     vec.push_back(item);
 
                     Some(Value::Vector(vec))
                 })?,
                 OpCode::VCons => self.do_binop(|item, vec| {
                     let mut vec: CatVec<Value, 32> = vec.into_vector()?;
+                    vec.len().checked_add(1)?;
                     vec.insert(0, item);
 
                     Some(Value::Vector(vec))
@@ -415,12 +419,14 @@ impl Executor {
                 OpCode::BPush => self.do_binop(|vec, val| {
                     let mut vec: CatVec<u8, 256> = vec.into_bytes()?;
                     let val: U256 = val.into_int()?;
+                    vec.len().checked_add(1)?;
                     vec.push_back(*val.low() as u8);
 
                     Some(Value::Bytes(vec))
                 })?,
                 OpCode::BCons => self.do_binop(|item, vec| {
                     let mut vec: CatVec<u8, 256> = vec.into_bytes()?;
+                    vec.len().checked_add(1)?;
                     vec.insert(0, item.into_truncated_u8()?);
 
                     Some(Value::Bytes(vec))
@@ -447,6 +453,8 @@ impl Executor {
                     let v2: CatVec<u8, 256> = v2.into_bytes()?;
 
                     log::trace!("Appending a vector that contains {:?} to a vector that contains {:?}", &v2, &v1);
+                    // lengths are usize: a string too long to count fails instead of overflowing inside the container
+                    v1.len().checked_add(v2.len())?;
 
                     v1.append(v2);
 
